@@ -49,6 +49,13 @@ func parseTemplate(path string) ([]probe, string, error) {
 	if err != nil {
 		return nil, "", err
 	}
+	// "//govc:use <file>": this unit shares the template of another one
+	if t := strings.TrimSpace(string(data)); strings.HasPrefix(t, "//govc:use ") {
+		f := strings.Fields(strings.SplitN(t, "\n", 2)[0])
+		if len(f) >= 2 {
+			return parseTemplate(filepath.Join(filepath.Dir(path), f[1]))
+		}
+	}
 	var probes []probe
 	for _, line := range strings.Split(string(data), "\n") {
 		t := strings.TrimSpace(line)
@@ -139,7 +146,30 @@ func smtIntValue(s string) (int64, bool) {
 	return n, err == nil
 }
 
+// replayOnRealCode: the solver's model instantiated in the unit's template; when that gives nothing (no model, no
+// template with probes, or the instantiated input does not fail) a corpus template <unit>@corpus.go.tmpl - boundary inputs
+// checked against a small reference written from the property statement - is tried. Either only DEMONSTRATES a failing
+// input on the real code; the verdict is the failed obligation.
 func replayOnRealCode(cfg *Config, ld *Loaded, replayPath string) bool {
+	if replayByModel(cfg, ld, replayPath) {
+		return true
+	}
+	o := pendingReplays[replayPath]
+	if o == nil {
+		return false
+	}
+	cp := filepath.Join(cfg.Verif, "replay", o.Unit.key+"@corpus.go.tmpl")
+	if !fileExists(cp) {
+		return false
+	}
+	_, tmpl, err := parseTemplate(cp)
+	if err != nil {
+		return false
+	}
+	return runReplayTest(cfg, ld, o, replayPath, tmpl, map[string]string{})
+}
+
+func replayByModel(cfg *Config, ld *Loaded, replayPath string) bool {
 	o := pendingReplays[replayPath]
 	if o == nil {
 		return false
